@@ -131,8 +131,10 @@ def replay_one(harness, params, assignment, known_open):
     ctx = core.ReplayCtx(assignment, known_open)
     status = "ok"
     detail = None
+    core.ACTIVE = ctx
     try:
         harness.run(ctx, params)
+        core.raise_pending()
     except core.ViolationFound:
         status = "violation"
     except core.PathAbort as e:
@@ -141,6 +143,8 @@ def replay_one(harness, params, assignment, known_open):
     except BaseException as e:  # noqa: BLE001
         status = "crash"
         detail = "".join(traceback.format_exception(type(e), e, e.__traceback__))[-2000:]
+    finally:
+        core.ACTIVE = None
     return dict(status=status, detail=detail,
                 violations=[(l, d) for l, _, d in ctx.violations],
                 known_hits=[(f, l, d) for f, l, _, d in ctx.known_hits],
